@@ -277,10 +277,21 @@ pub fn tap_key(t: &RTap) -> TapKey {
     }
 }
 
-/// Key without `prev_state` (the only field `process_clocks` never reads)
+/// Key without `prev_state` (the only field `process_clocks` never reads) and with the part of
+/// the 128-byte read buffer that can never be read again zeroed: `next_block_byte` only reads
+/// `buffer[block_bytes_read - buffer_offset]` with `block_bytes_read < current_block_size`, and
+/// `next_block` overwrites `buffer[0..min(size,128)]` before anything is read, so bytes at index
+/// >= min(128, block_size - buffer_offset) (all of them when no block is current) are dead.
 pub fn tap_key_noprev(t: &RTap) -> TapKey {
     let mut k = tap_key(t);
     k.st.prev_state = (0, 0, 0);
+    let valid = match k.st.current_block_size {
+        Some(sz) => sz.saturating_sub(k.st.buffer_offset).min(k.st.buffer.len()),
+        None => 0,
+    };
+    for b in k.st.buffer[valid..].iter_mut() {
+        *b = 0;
+    }
     k
 }
 
